@@ -8,6 +8,8 @@
 #include <unistd.h>
 
 #include "fiber_manager.h"
+#include "fiber_scheduler.h"
+#include "work_stealing_deque.h"
 #include "fiber_event.h"
 #include "rt.h"
 
@@ -18,6 +20,14 @@ static volatile long work_cell[MAX_FIBERS];
 fiber_t* rt_fibers[MAX_FIBERS];
 static void* main_slot;
 
+// what program fiber idx returns from its function: a value that identifies it, or (cfg ret_special k > 0) one of the values a
+// library might be tempted to use as an in-band marker: NULL, -1, -2, -3, 1, 2
+void* rt_token(int idx) {
+  static const intptr_t special[] = {0, -1, -2, -3, 1, 2};
+  long k = cfg_get("ret_special", 0);
+  if (k > 0) return (void*)special[(idx + k) % 6];
+  return (void*)(intptr_t)(0x1000 + idx);
+}
 void rt_work(int idx, int n) {
   for (int i = 0; i < n; i++) work_cell[idx] += i;
 }
@@ -44,7 +54,7 @@ static void* fiber_body(void* p) {
   }
   g_set_op(idx, g_case.n_ops[idx]);
   g_done(idx);
-  return (void*)(intptr_t)(0x1000 + idx);
+  return rt_token(idx);
 }
 
 static int is_target(int idx) { return g_case.n_ops[idx] > 0 && !strcmp(g_case.ops[idx][0].name, "target"); }
@@ -81,6 +91,12 @@ void rt_main(void* arg) {
   }
   if (fiber_manager_init((size_t)g_case.threads) != FIBER_SUCCESS) vs_violation("engine_limit", "fiber_manager_init failed");
   if (soft > 0) setrlimit(RLIMIT_NOFILE, &rl_saved);
+  // only the owning kernel thread moves 'bottom' of its two run queues (thieves advance 'top')
+  for (int t = 0; t < g_case.threads; t++) {
+    struct { wsd_work_stealing_deque_t* q1; wsd_work_stealing_deque_t* q2; }* sc = (void*)fiber_scheduler_for_thread((size_t)t);
+    vs_owner_only((void*)&sc->q1->bottom, sizeof sc->q1->bottom, "bottom of a kernel thread's run queue");
+    vs_owner_only((void*)&sc->q2->bottom, sizeof sc->q2->bottom, "bottom of a kernel thread's run queue");
+  }
   const long defer_from = cfg_get("defer_from", MAX_FIBERS);
   // create every fiber before any of them can run (handles must exist when actors start)
   for (int i = 0; i < g_case.n_fibers && i < defer_from; i++) rt_create(i);
